@@ -946,6 +946,8 @@ class Interp:
         if dk is not None:
             return "found", dk
         has_dyn = any(isinstance(x, tuple) and x and x[0] == "dyn" for x in d)
+        if key[0] == "cls" and not opened and all(isinstance(x, tuple) and x and x[0] == "dyn" and v[0] == "list" and len(v[1]) == 2 and v[1][0][0] == "cls" for x, v in d.items()):
+            return "absent", None          # a table keyed by classes, asked for a class it does not list
         if not d and not opened:
             return "absent", None          # nothing stored: no need to look at the key at all
         if key[0] == "atom":
@@ -1329,7 +1331,11 @@ class Interp:
             for k_, v_ in zip(ce.keys, ce.values):
                 ka = const_alts(Evaluator(self.repo, kc.module, c, class_scope=kc).ev(k_))
                 if ka is None or len(ka) != 1 or not _hashable(ka[0]):
-                    return ("fn", "const", [])
+                    kcls = self.repo.resolve_expr_class(kc.module, k_) if isinstance(k_, (ast.Name, ast.Attribute)) else None
+                    if kcls is None:
+                        return ("fn", "const", [])
+                    out[("dyn", len(out))] = ("list", [("cls", kcls), self.class_const_value(kc, c, v_)])      # a table keyed by classes
+                    continue
                 out[ka[0]] = self.class_const_value(kc, c, v_)
             return ("dict", out)
         if isinstance(ce, ast.Lambda):
